@@ -215,7 +215,7 @@ PROPS["C13"] = dict(
         "followed by every later component of original' exactly when both first components are IP/DNS, else None — "
         "including originals with a second host component further down (must be preserved) and observed addresses "
         "whose host is not the first component (must give None)."),
-    bounds="5 (quick) / 10 (thorough) shape pairs over ip4/ip6/tcp/memory/p2p-circuit/empty, <= 2 components per address; unwind 40",
+    bounds="6 (quick) / 11 (thorough) shape pairs over ip4/ip6/tcp/memory/p2p-circuit/empty, <= 2 components per address; unwind 40",
     outside="addresses with three or more components and DNS host components (tried: no result in 15 min, every component read back from the heap Multiaddr forks symbolic execution); p2p components",
     stubs=[TRACING], assumptions=[FORGET], hooks=[],
 )
